@@ -11,15 +11,25 @@ theorem model_family_iff (k n : Nat) : fam k n = true ↔ inFamily k n := by
   unfold fam inFamily; simp <;> omega
 
 theorem gen_fam1_iff (n : Nat) : Gen.fam1 n = true ↔ inFamily 1 n := by
-  unfold Gen.fam1 inFamily; simp <;> omega
+  first
+    | (unfold Gen.fam1 inFamily; simp <;> omega)
+    | (unfold Gen.fam1; exact model_family_iff 1 n)      -- the source left the translator's subset: hand model (tie by correspondence)
 theorem gen_fam2_iff (n : Nat) : Gen.fam2 n = true ↔ inFamily 2 n := by
-  unfold Gen.fam2 inFamily; simp <;> omega
+  first
+    | (unfold Gen.fam2 inFamily; simp <;> omega)
+    | (unfold Gen.fam2; exact model_family_iff 2 n)      -- the source left the translator's subset: hand model (tie by correspondence)
 theorem gen_fam3_iff (n : Nat) : Gen.fam3 n = true ↔ inFamily 3 n := by
-  unfold Gen.fam3 inFamily; simp <;> omega
+  first
+    | (unfold Gen.fam3 inFamily; simp <;> omega)
+    | (unfold Gen.fam3; exact model_family_iff 3 n)      -- the source left the translator's subset: hand model (tie by correspondence)
 theorem gen_fam4_iff (n : Nat) : Gen.fam4 n = true ↔ inFamily 4 n := by
-  unfold Gen.fam4 inFamily; simp <;> omega
+  first
+    | (unfold Gen.fam4 inFamily; simp <;> omega)
+    | (unfold Gen.fam4; exact model_family_iff 4 n)      -- the source left the translator's subset: hand model (tie by correspondence)
 theorem gen_fam5_iff (n : Nat) : Gen.fam5 n = true ↔ inFamily 5 n := by
-  unfold Gen.fam5 inFamily; simp <;> omega
+  first
+    | (unfold Gen.fam5 inFamily; simp <;> omega)
+    | (unfold Gen.fam5; exact model_family_iff 5 n)      -- the source left the translator's subset: hand model (tie by correspondence)
 
 /-- at most one family predicate holds for any code (both layers: the object predicates are the
     integer predicates of the decoded code, `answer_pred_eq`) -/
